@@ -135,6 +135,7 @@ def main():
             'multivalue-pairwise': dict(base_args, target_ranking_only='False', explode_multivalue_features='m'),
             'focus-pairwise': dict(base_args, target_ranking_only='False', feature_set_focus='f0,f2,zz,m'),
             'subsampled-mi': dict(base_args, target_ranking_only='False', mi_stratified_sampling_ratio=0.5),
+            'binding-cap': dict(base_args, target_ranking_only='False', combination_number_upper_bound=5),      # which pairs survive the cap must not depend on the process
         }
         if tier != 'quick':
             groups['interactions-cap'] = dict(base_args, interaction_order=2, combination_number_upper_bound=7)
